@@ -323,6 +323,7 @@ Lemma model_agrees_hist evs f conf recs :
   exists s, replay init evs = Some (s, true) /\ final_agree s f = true.
 Proof.
   cbn. destruct (replay init evs) as [[s b]|]; [|discriminate]. intros H.
+  apply Bool.andb_true_iff in H. destruct H as [H _].
   apply Bool.andb_true_iff in H. destruct H as [-> H]. exists s. split; [reflexivity|exact H].
 Qed.
 
